@@ -1,5 +1,5 @@
 /* Conformance driver for the text codecs (C14/C12).  Protocol: one case per stdin line,
- *   <op> <hex-input|-> <capacity> [x1 [x2]]     ->   "<op> rc=<rc> n=<reported> out=<hex|-> guard=<ok|lo|hi> [v=<hex64>]"
+ *   <op> <hex-input|-> <capacity> [x1 [x2]]     ->   "<op> rc=<rc> n=<reported> out=<hex|-> guard=<ok|lo|hi> touched=<k> [v=<hex64>]"
  * Input and output live in exact-size heap blocks (ASan build) so overruns are observed.
  * The driver computes nothing about the expected result; it only calls the library and prints what came back.
  *
@@ -210,6 +210,11 @@ int main(void) {
 		printf("%s rc=%d n=%zd out=", op, rc, (ssize_t)rep);
 		vh_puthex(out, (rc == 0 && rep != (size_t)-1 && rep <= (size_t)cap) ? rep : 0);
 		printf(" guard=%s", out_guard((size_t)cap));
+		{	/* 1 + index of the last byte of the output block that no longer holds the 0xA5 fill */
+			size_t touched = (size_t)cap;
+			while (touched > 0 && out[touched - 1] == 0xA5) touched--;
+			printf(" touched=%zu", touched);
+		}
 		if (have_v) printf(" v=%016" PRIx64, v);
 		if (have_v == 2) printf(" v2=%016" PRIx64, v2);
 		printf("\n");
